@@ -23,7 +23,7 @@ THEOREMS = [f'Gnpy.Chain.{t}' for t in (
     'split_spans_equal', 'splitLine_kinds', 'no_adjacent_fibres', 'roadm_fibre_junction_amplified',
     'original_order_preserved', 'addMissing_endpoints', 'names_unique_partial', 'connectors_defined',
     'padding_reached', 'padRun_dsl', 'padRun_fused_edge_unpadded_fails_current',
-    'padRun_idempotent')]
+    'padRun_idempotent', 'amps_complete')]
 RULE = ('cases from one PRNG: (a) 75 % star topologies (hub ROADM of degree 1-5, one chain per direction of 1-8 line '
         'elements: fibres 0.5 m - 3000 km incl. 149/149.999/150/150.001/151 km, fused runs, user amplifiers with full/'
         'partial/no settings, Raman fibres, a transceiver-sourced line) x random Span/SI configuration (mode, '
